@@ -37,6 +37,9 @@ def correspondence(ctx):
         h = hexs([ctx.rng.choice(std) for _ in range(n)])
         cases.append(f'allows.id|{h}')
         cases.append(f'allows.ff|{h}')
+    for s_ in long_strings(ctx, std, (60 if ctx.tier == 'quick' else 3000)):
+        cases.append(f'allows.id|{hexs(s_)}')
+        cases.append(f'allows.ff|{hexs(s_)}')
     res = run_cases(cases, ctx.work)
 
     def nontrivial(case, impl):
